@@ -77,7 +77,7 @@ def parse_output(text, res):
 
 def run_tlc(module, cfg=None, workers=1, timeout=600, env=None, simulate=None, depth=None,
             coverage=False, seed=None, extra=None, deadlock=False, allow_violation=False,
-            xmx='3g', gcthreads=2, dfs=False):
+            xmx=None, gcthreads=2, dfs=False, light=None):
     """Run TLC on spec/mc/<module>.tla (or an absolute path).  Returns TLCResult.
 
     allow_violation: an invariant violation is returned (res.invariant_violated) instead of raising.
@@ -96,12 +96,24 @@ def run_tlc(module, cfg=None, workers=1, timeout=600, env=None, simulate=None, d
         cfg = os.path.join(moddir, cfg)
     meta = tempfile.mkdtemp(prefix='tlc_', dir=WORK)
     libs = os.pathsep.join(d for d in _spec_dirs() if d != moddir)
-    jopts = f'-XX:ParallelGCThreads={gcthreads} -Xmx{xmx} -Xss16m -DTLA-Library={libs}'
+    # JVM sizing matters a lot when several TLC processes run side by side: with default ergonomics 14
+    # JVMs on 16 cores spend most of their time in GC/JIT thread contention (measured 46 s vs 5.6 s).
+    if xmx is None:
+        # small heaps: with transparent huge pages 'always', every heap expansion is zeroed by the kernel
+        # (measured: 14 parallel JVMs, -Xmx3g 22 s wall / 228 s sys; -Xmx512m 5 s wall / 7 s sys)
+        xmx = '768m' if workers == 1 else '4g'
+    if workers == 1:
+        jopts = f'-XX:+UseSerialGC -XX:ActiveProcessorCount=1 -Xmx{xmx} -Xss16m -DTLA-Library={libs}'
+        if light is None or light:
+            jopts += ' -XX:TieredStopAtLevel=1'
+    else:
+        jopts = (f'-XX:+UseParallelGC -XX:ParallelGCThreads={max(2, workers // 2)} -XX:ActiveProcessorCount={workers} '
+                 f'-Xmx{xmx} -Xss16m -DTLA-Library={libs}')
     if dfs:
         jopts += ' -Dtlc2.tool.queue.IStateQueue=StateDeque'
-    cmd = ['timeout', str(int(timeout)), 'java', '-XX:+UseParallelGC'] + jopts.split() + [
+    cmd = ['timeout', str(int(timeout)), 'java'] + jopts.split() + [
         '-cp', JAR, 'tlc2.TLC', '-metadir', meta, '-noGenerateSpecTE',
-        '-workers', str(workers), '-config', cfg]
+        '-workers', str(workers), '-fpmem', '0.1', '-config', cfg]
     if not deadlock:
         cmd += ['-deadlock']
     if coverage:
@@ -172,3 +184,44 @@ def sany(path):
     bad = p.returncode != 0 or 'rror' in p.stdout.replace('Semantic errors:', 'Semantic rrors:') and \
         ('*** Errors' in p.stdout or 'Fatal' in p.stdout or 'Parse Error' in p.stdout)
     return (not bad), p.stdout
+
+
+def eval_cases(module, cases, nparts=12, env=None, timeout=900, cfg=None, keep_order=True):
+    """Feed `cases` (list of dicts, each with a unique 'id') to a case-evaluating model
+    (Cases == JsonDeserialize(IOEnv.CASES), one state per case, EMIT per case).
+    Returns (dict id -> emitted record, merged TLCResult)."""
+    os.makedirs(WORK, exist_ok=True)
+    nparts = max(1, min(nparts, len(cases)))
+    files = []
+    tag = f'{os.getpid()}_{int(time.time()*1000) % 100000000}'
+    for p in range(nparts):
+        fn = os.path.join(WORK, f'cases_{tag}_{p}.json')
+        with open(fn, 'w') as f:
+            json.dump(cases[p::nparts], f)
+        files.append(fn)
+
+    def one(p):
+        e = dict(env or {})
+        e['CASES'] = files[p]
+        return run_tlc(module, cfg=cfg, env=e, workers=1, timeout=timeout)
+    try:
+        with ThreadPoolExecutor(max_workers=14) as ex:
+            results = list(ex.map(one, range(nparts)))
+    finally:
+        for fn in files:
+            try:
+                os.unlink(fn)
+            except OSError:
+                pass
+    tot = TLCResult()
+    out = {}
+    for r in results:
+        tot.generated += r.generated
+        tot.distinct += r.distinct
+        tot.wall = max(tot.wall, r.wall)
+        for rec in r.emits:
+            out[rec['id']] = rec
+        tot.emits += r.emits
+    if len(out) != len(cases):
+        raise TLCError(f'{module}: {len(cases)} cases in, {len(out)} records out')
+    return out, tot
